@@ -2,7 +2,7 @@
    lookup files, alerts and contact points as keyed stores.
    Statements only; proofs are in SigP.AlertProofs / SigP.KvStoreProofs. *)
 From SigM Require Import Base Alert KvStore.
-From SigP Require Import BaseProofs AlertProofs KvStoreProofs.
+From SigP Require Import BaseProofs AlertProofs KvStoreProofs KvStoreScopedProofs.
 From SigG Require Import Gen.
 From SigP Require Import GenC20.
 
@@ -195,42 +195,113 @@ Theorem C20_dkv_refines_map : forall ops s t k,
 Proof. exact dkv_refines_map. Qed.
 Print Assumptions C20_dkv_refines_map.
 
-(* Index aliases (model of pkg/virtualtable as of a69a617).  FULL: for every sequence of adds,
+(* Index aliases (model of pkg/virtualtable as of a69a617).  Every theorem quantifies over D, the
+   set of tenants (besides tenant 0) whose alias directory aliases/<org>/ exists - so over
+   deployments with any number of tenants that own aliases.  FULL: for every sequence of adds,
    removes, reads, process crashes and CLEAN SHUTDOWNS followed by a start, for every tenant,
    GetAliases(index) holds exactly the aliases written last (sets are compared by membership:
    the shutdown flush may rewrite a file in another order) ... *)
-Theorem C20_alias_refines_map : forall ops t i al,
+Theorem C20_alias_refines_map : forall (D : Dirs) ops t i al,
   ns_mem al (aabs (arun ops empty_astore) t i) = ns_mem al (aspec_run ops (aabs empty_astore) t i).
-Proof. exact alias_refines_map. Qed.
+Proof. exact @alias_refines_map. Qed.
 Print Assumptions C20_alias_refines_map.
 
 (* ... and the reverse lookup (IsAlias / ExpandAndReturnIndexNames) finds index i for an alias iff
    the file of index i lists the alias, restarts included. *)
-Theorem C20_alias_reverse_consistent : forall ops, rev_consistent (arun ops empty_astore).
-Proof. exact alias_reverse_consistent. Qed.
+Theorem C20_alias_reverse_consistent : forall (D : Dirs) ops, rev_consistent (arun ops empty_astore).
+Proof. exact @alias_reverse_consistent. Qed.
 Print Assumptions C20_alias_reverse_consistent.
 
 (* Aliases survive a restart, graceful or not, for every tenant. *)
-Theorem C20_alias_restart_preserves : forall ops o t i al, is_restart o = true ->
+Theorem C20_alias_restart_preserves : forall (D : Dirs) ops o t i al, is_restart o = true ->
   ns_mem al (aabs (arun (ops ++ [o]) empty_astore) t i) = ns_mem al (aabs (arun ops empty_astore) t i).
-Proof. exact alias_restart_preserves. Qed.
+Proof. exact @alias_restart_preserves. Qed.
 Print Assumptions C20_alias_restart_preserves.
 
+(* ... and so does every reverse lookup. *)
+Theorem C20_alias_restart_preserves_reverse : forall (D : Dirs) ops o t idx al, is_restart o = true ->
+  ns_mem idx (nm_get al (t_nm t (arev (arun (ops ++ [o]) empty_astore)))) =
+  ns_mem idx (nm_get al (t_nm t (arev (arun ops empty_astore)))).
+Proof. exact @alias_restart_preserves_reverse. Qed.
+Print Assumptions C20_alias_restart_preserves_reverse.
+
 (* Without a clean shutdown the files are even literally the written lists. *)
-Theorem C20_alias_forward_refines_map : forall ops s, ainv s ->
+Theorem C20_alias_forward_refines_map : forall (D : Dirs) ops s, ainv s ->
   forallb (fun o => negb (is_shutdown o)) ops = true ->
   forall t i, aabs (arun ops s) t i = aspec_run ops (aabs s) t i.
-Proof. exact alias_forward_refines_map. Qed.
+Proof. exact @alias_forward_refines_map. Qed.
 Print Assumptions C20_alias_forward_refines_map.
+
+(* SEVERAL TENANTS (round h).  One tenant's operations never disturb another's, restarts and
+   shutdown flushes included: after ANY history of ANY number of tenants, tenant t reads what it
+   reads after the history with every other tenant's operations deleted (the restarts stay) ... *)
+Theorem C20_alias_tenants_independent : forall (D : Dirs) ops t i al,
+  ns_mem al (aabs (arun ops empty_astore) t i) =
+  ns_mem al (aabs (arun (filter (aop_for t) ops) empty_astore) t i).
+Proof. exact @alias_tenants_independent. Qed.
+Print Assumptions C20_alias_tenants_independent.
+
+(* ... through the reverse lookups (IsAlias, GetAllAliasesAsMapArray, alias expansion) as well. *)
+Theorem C20_alias_tenants_independent_reverse : forall (D : Dirs) ops t idx al,
+  ns_mem idx (nm_get al (t_nm t (arev (arun ops empty_astore)))) =
+  ns_mem idx (nm_get al (t_nm t (arev (arun (filter (aop_for t) ops) empty_astore)))).
+Proof. exact @alias_tenants_independent_reverse. Qed.
+Print Assumptions C20_alias_tenants_independent_reverse.
+
+(* Write-back at shutdown, then load: from ANY state in which memory and files agree (reachable
+   or not), FlushAliasMapToFile followed by a start gives every tenant back exactly its own
+   forward and reverse maps. *)
+Theorem C20_alias_flush_load_roundtrip : forall (D : Dirs) s, ainv s -> rev_consistent s ->
+  (forall t i al, ns_mem al (aabs (fst (astep s AShutdownRestart)) t i) = ns_mem al (aabs s t i)) /\
+  (forall t idx al, ns_mem idx (nm_get al (t_nm t (arev (fst (astep s AShutdownRestart))))) =
+                    ns_mem idx (nm_get al (t_nm t (arev s)))).
+Proof. exact @alias_flush_load_roundtrip. Qed.
+Print Assumptions C20_alias_flush_load_roundtrip.
+
+(* The variant with the flush's scratch map index -> aliases allocated once for all tenants
+   ([arun_shared]) is refuted by two tenants with one alias each: after shutdown + start tenant 5
+   is told that its index i1 has the alias only tenant 0 wrote; the variant also breaks tenant
+   independence.  With a single tenant in memory the variant cannot be told from the code. *)
+Theorem C20_alias_shared_scratch_flush_refuted :
+  exists (D : Dirs) ops t i al,
+    ns_mem al (aabs (arun_shared ops empty_astore) t i) <> ns_mem al (aspec_run ops (aabs empty_astore) t i).
+Proof. exact shared_scratch_flush_refuted. Qed.
+Print Assumptions C20_alias_shared_scratch_flush_refuted.
+
+Theorem C20_alias_shared_scratch_flush_not_independent :
+  exists (D : Dirs) ops t i al,
+    ns_mem al (aabs (arun_shared ops empty_astore) t i) <>
+    ns_mem al (aabs (arun_shared (filter (aop_for t) ops) empty_astore) t i).
+Proof. exact shared_scratch_flush_not_independent. Qed.
+Print Assumptions C20_alias_shared_scratch_flush_not_independent.
+
+(* The loop of FlushAliasMapToFile in the SHAPE of the code - a scratch map index -> aliases built
+   per tenant by inverting the in-memory map, then one file write per entry ([arun_scoped]) - is
+   correct for every history and every number of tenants, and equal to the model used above; the
+   refuted variant differs from it only in where the scratch map is allocated. *)
+Theorem C20_alias_scoped_refines_map : forall (D : Dirs) ops t i al,
+  ns_mem al (aabs (arun_scoped ops empty_astore) t i) = ns_mem al (aspec_run ops (aabs empty_astore) t i).
+Proof. exact @alias_scoped_refines_map. Qed.
+Print Assumptions C20_alias_scoped_refines_map.
+
+Theorem C20_alias_scoped_reverse_consistent : forall (D : Dirs) ops,
+  rev_consistent (arun_scoped ops empty_astore).
+Proof. exact @alias_scoped_reverse_consistent. Qed.
+Print Assumptions C20_alias_scoped_reverse_consistent.
+
+Theorem C20_alias_shared_scratch_one_tenant : forall (D : Dirs) s tr,
+  arev s = [tr] -> flush_rev_shared s = flush_rev_scoped s.
+Proof. exact @shared_scratch_one_tenant. Qed.
+Print Assumptions C20_alias_shared_scratch_one_tenant.
 
 (* ---- PRE-FIX documentation (about [arun_prefix]: only sub-directories of aliases/ were scanned
    at start; the shutdown flush wrote <alias>.json holding index names) *)
-Theorem C20_prefix_alias_reverse_lost_refuted :
+Theorem C20_prefix_alias_reverse_lost_refuted : forall D : Dirs,
   exists ops, ~ rev_consistent (arun_prefix ops empty_astore).
 Proof. exact prefix_alias_reverse_lost_refuted. Qed.
 Print Assumptions C20_prefix_alias_reverse_lost_refuted.
 
-Theorem C20_prefix_alias_shutdown_flush_refuted :
+Theorem C20_prefix_alias_shutdown_flush_refuted : forall D : Dirs,
   exists ops t i al,
     ns_mem al (aabs (arun_prefix ops empty_astore) t i) <> ns_mem al (aspec_run ops (aabs empty_astore) t i).
 Proof. exact prefix_alias_shutdown_flush_refuted. Qed.
